@@ -4,6 +4,7 @@
 #include <sstream>
 #include <cstring>
 #include <cmath>
+#include <climits>
 namespace sim {
 using model::Q; using model::Ext; using model::LP;
 namespace P { int b(const std::string& n); int i(const std::string& n); int r(const std::string& n); }
@@ -18,6 +19,8 @@ void Executor::op_query(const Op& op, TaskCtx& t) {
   else if (what == "accessors") { check_accessors(*o); }
   else if (what == "basis") { if (o->s->hasBasis()) { check_basis(*o, false); if (opt_.want("C05")) check_inverse(*o); } }
   else if (what == "params") check_params(*o);
+  else if (what == "ratinverse") check_ratinverse(*o);
+  else if (what == "sync") { if (o->s->getInt(P::i("syncmode")) == 1) check_sync(*o); }
 }
 
 // every accessor of the real LP equals the double image of the model, bit for bit
@@ -33,14 +36,14 @@ void Executor::check_accessors(Obj& o) {
   if (s.getInt(P::i("objsense")) != lp.sense) { viol(prop, "accessor_sense", "objective sense differs from model", ctx); return; }
   for (int j = 0; j < lp.ncols(); j++) {
     double lo = model::ext_to_double(lp.lo[j], inf), up = model::ext_to_double(lp.up[j], inf), c = model::q_to_double_nearest(lp.obj[j]);
-    if (bitdiff(s.lower(j), lo) && !(s.lower(j) <= -inf && lo <= -inf)) { viol(prop, "accessor_lower", "lowerReal(" + std::to_string(j) + ")=" + dstr(s.lower(j)) + " model " + dstr(lo), ctx); return; }
-    if (bitdiff(s.upper(j), up) && !(s.upper(j) >= inf && up >= inf)) { viol(prop, "accessor_upper", "upperReal(" + std::to_string(j) + ")=" + dstr(s.upper(j)) + " model " + dstr(up), ctx); return; }
-    if (s.obj(j) != c) { viol(prop, "accessor_obj", "objReal(" + std::to_string(j) + ")=" + dstr(s.obj(j)) + " model " + dstr(c), ctx); return; }
+    if (bitdiff(s.lower(j), lo) && !(s.lower(j) <= -inf && lo <= -inf) && !(o.ever_rational && lp.lo[j].finite() && model::double_is_image(lp.lo[j].v, s.lower(j)))) { viol(prop, "accessor_lower", "lowerReal(" + std::to_string(j) + ")=" + dstr(s.lower(j)) + " model " + dstr(lo), ctx); return; }
+    if (bitdiff(s.upper(j), up) && !(s.upper(j) >= inf && up >= inf) && !(o.ever_rational && lp.up[j].finite() && model::double_is_image(lp.up[j].v, s.upper(j)))) { viol(prop, "accessor_upper", "upperReal(" + std::to_string(j) + ")=" + dstr(s.upper(j)) + " model " + dstr(up), ctx); return; }
+    if (s.obj(j) != c && !(o.ever_rational && model::double_is_image(lp.obj[j], s.obj(j)))) { viol(prop, "accessor_obj", "objReal(" + std::to_string(j) + ")=" + dstr(s.obj(j)) + " model " + dstr(c), ctx); return; }
     sut::SVec cv = s.colVec(j);
     int nz = 0;
     for (size_t k = 0; k < cv.idx.size(); k++) {
       int i = cv.idx[k]; if (i < 0 || i >= lp.nrows()) { viol(prop, "accessor_colvec", "column vector index out of range", ctx); return; }
-      if (bitdiff(cv.val[k], model::q_to_double_nearest(lp.A[i][j]))) { viol(prop, "accessor_colvec", "column " + std::to_string(j) + " row " + std::to_string(i) + ": " + dstr(cv.val[k]) + " model " + lp.A[i][j].get_str(), ctx); return; }
+      if (bitdiff(cv.val[k], model::q_to_double_nearest(lp.A[i][j])) && !(o.ever_rational && model::double_is_image(lp.A[i][j], cv.val[k]))) { viol(prop, "accessor_colvec", "column " + std::to_string(j) + " row " + std::to_string(i) + ": " + dstr(cv.val[k]) + " model " + lp.A[i][j].get_str(), ctx); return; }
       nz++;
     }
     int mz = 0; for (int i = 0; i < lp.nrows(); i++) if (lp.A[i][j] != 0) mz++;
@@ -48,13 +51,13 @@ void Executor::check_accessors(Obj& o) {
   }
   for (int i = 0; i < lp.nrows(); i++) {
     double l = model::ext_to_double(lp.lhs[i], inf), r = model::ext_to_double(lp.rhs[i], inf);
-    if (bitdiff(s.lhs(i), l) && !(s.lhs(i) <= -inf && l <= -inf)) { viol(prop, "accessor_lhs", "lhsReal(" + std::to_string(i) + ")=" + dstr(s.lhs(i)) + " model " + dstr(l), ctx); return; }
-    if (bitdiff(s.rhs(i), r) && !(s.rhs(i) >= inf && r >= inf)) { viol(prop, "accessor_rhs", "rhsReal(" + std::to_string(i) + ")=" + dstr(s.rhs(i)) + " model " + dstr(r), ctx); return; }
+    if (bitdiff(s.lhs(i), l) && !(s.lhs(i) <= -inf && l <= -inf) && !(o.ever_rational && lp.lhs[i].finite() && model::double_is_image(lp.lhs[i].v, s.lhs(i)))) { viol(prop, "accessor_lhs", "lhsReal(" + std::to_string(i) + ")=" + dstr(s.lhs(i)) + " model " + dstr(l), ctx); return; }
+    if (bitdiff(s.rhs(i), r) && !(s.rhs(i) >= inf && r >= inf) && !(o.ever_rational && lp.rhs[i].finite() && model::double_is_image(lp.rhs[i].v, s.rhs(i)))) { viol(prop, "accessor_rhs", "rhsReal(" + std::to_string(i) + ")=" + dstr(s.rhs(i)) + " model " + dstr(r), ctx); return; }
     sut::SVec rv = s.rowVec(i);
     int nz = 0;
     for (size_t k = 0; k < rv.idx.size(); k++) {
       int j = rv.idx[k]; if (j < 0 || j >= lp.ncols()) { viol(prop, "accessor_rowvec", "row vector index out of range", ctx); return; }
-      if (bitdiff(rv.val[k], model::q_to_double_nearest(lp.A[i][j]))) { viol(prop, "accessor_rowvec", "row " + std::to_string(i) + " column " + std::to_string(j) + ": " + dstr(rv.val[k]) + " model " + lp.A[i][j].get_str(), ctx); return; }
+      if (bitdiff(rv.val[k], model::q_to_double_nearest(lp.A[i][j])) && !(o.ever_rational && model::double_is_image(lp.A[i][j], rv.val[k]))) { viol(prop, "accessor_rowvec", "row " + std::to_string(i) + " column " + std::to_string(j) + ": " + dstr(rv.val[k]) + " model " + lp.A[i][j].get_str(), ctx); return; }
       nz++;
       if (bitdiff(s.coef(i, j), rv.val[k])) { viol(prop, "accessor_coef", "coefReal differs from the row vector entry", ctx); return; }
     }
@@ -82,6 +85,7 @@ void Executor::op_modify(const Op& op, TaskCtx& t) {
   Obj* o = obj(op.obj); if (!o) return;
   auto& s = *o->s; LP& lp = o->lp;
   if (op.name == "setbasis") { op_setbasis(op, *o); return; }
+  if (op.name == "param") { op_param(op, *o); return; }
   if (op.name != "mod") { count("unknown_op:" + op.name); return; }
   std::string kind = op.get("kind");
   bool rat = op.get("iface", "real") == "rat" && s.getInt(P::i("syncmode")) != 0;
@@ -174,9 +178,9 @@ void Executor::op_modify(const Op& op, TaskCtx& t) {
   else { changed = false; count("mod_skipped"); }
 
   if (changed) {
-    o->stopped_since_change = false; o->buggified_since_change = false; o->refReal.valid = o->refRat.valid = false;
+    o->stopped_since_change = false; o->buggified_since_change = false; o->refReal.valid = o->refRat.valid = false; o->modified_since_solve = true;
     // nothing cached from before the modification may be reported as current
-    if (opt_.want("C06") && kind != "sync") {
+    if (opt_.want("C06") && kind != "sync" && kind != "offset") {
       if (s.hasSol()) viol("C06", "stale_solution_reported", "hasSol() is true right after " + kind, ctx_of(*o));
       else if (s.status() == sut::ST_OPTIMAL) viol("C06", "stale_status_reported", "status() is OPTIMAL right after " + kind, ctx_of(*o));
     }
@@ -258,5 +262,134 @@ void Executor::op_setbasis(const Op& op, Obj& o) {
     return;
   }
   count("setbasis_no_regular_basis_found");
+}
+
+// ------------------------------------------------------------------ C15 parameter operations
+void Executor::op_param(const Op& op, Obj& o) {
+  auto& s = *o.s; auto& pi = sut::param_info();
+  std::string kind = op.get("kind", "setvalid");
+  Rng r(mix((uint64_t)op.geti("s", 1), 0x9A2A));
+  bool any = op.geti("any", 0) != 0;   // any parameter (run without later solves) or only the ones that are safe to vary before a solve
+  static const char* safeB[] = {"ensureray", "fullperturbation", "rowboundflips", "persistentscaling", "acceptcycling", "powerscaling", "ratfacjump", "forcebasic", "testdualinf", "eqtrans"};
+  static const char* safeI[] = {"representation", "algorithm", "factor_update_type", "factor_update_max", "displayfreq", "simplifier", "scaler", "starter", "pricer", "ratiotester", "hyperpricing", "solution_polishing", "ratfac_minstalls", "leastsq_maxrounds", "printbasismetric", "stattimer", "timer"};
+  static const char* safeR[] = {"maxscaleincr", "sparsity_threshold", "representation_switch", "ratrec_freq", "minred", "refac_basis_nnz", "refac_update_fill", "refac_mem_factor", "leastsq_acrcy", "min_markowitz", "simplifier_modifyrowfac", "precision_boosting_factor", "liftminval", "liftmaxval"};
+  auto snapshot = [&](std::vector<bool>& b, std::vector<int>& i, std::vector<double>& d) { b.clear(); i.clear(); d.clear(); for (int p = 0; p < pi.nbool; p++) b.push_back(s.getBool(p)); for (int p = 0; p < pi.nint; p++) i.push_back(s.getInt(p)); for (int p = 0; p < pi.nreal; p++) d.push_back(s.getReal(p)); };
+  auto same = [&](const std::vector<bool>& b, const std::vector<int>& i, const std::vector<double>& d) { for (int p = 0; p < pi.nbool; p++) if (b[p] != s.getBool(p)) return "bool:" + pi.bname[p]; for (int p = 0; p < pi.nint; p++) if (i[p] != s.getInt(p)) return "int:" + pi.iname[p]; for (int p = 0; p < pi.nreal; p++) if (memcmp(&d[p], &(const double&)s.getReal(p), 8) && !(std::isnan(d[p]) && std::isnan(s.getReal(p)))) return "real:" + pi.rname[p]; return std::string(); };
+  count("param:" + kind);
+  if (op.has("force") && kind != "setsettings") {
+    std::string f = op.get("force"); std::vector<bool> b0; std::vector<int> i0; std::vector<double> d0; snapshot(b0, i0, d0);
+    size_t eq = f.find('='); std::string nm = f.substr(0, eq), vv = eq == std::string::npos ? "" : f.substr(eq + 1); bool ok;
+    if (kind == "setbad" && nm.compare(0, 5, "real:") == 0) { int p = P::r(nm.substr(5)); ok = p >= 0 && s.setReal(p, vv == "nan" ? (double)NAN : atof(vv.c_str())); }
+    else ok = s.parseSettings(f);
+    if (ok) viol("C15", "invalid_value_accepted", f + " accepted (returned true)", {{"param", nm}});
+    else { std::string w = same(b0, i0, d0); if (!w.empty()) viol("C15", "rejected_value_changed_state", f + " was rejected but " + w + " changed"); }
+    return;
+  }
+  int ty = r.range(0, 2);
+  bool viaString = kind == "parsevalid" || kind == "parsebad";
+  bool bad = kind == "setbad" || kind == "parsebad";
+  if (kind == "reset") {
+    s.resetSettings(); o.pm.reset();
+    o.lp.sense = o.pm.i[P::i("objsense")]; o.lp.offset = model::q_from_double(o.pm.r[P::r("obj_offset")]);
+    o.pm.seed = s.seed();   // the seed is not part of the tables
+    if (s.getInt(P::i("verbosity")) != 0) { s.setInt(P::i("verbosity"), 0); } o.pm.i[P::i("verbosity")] = 0;
+    o.refReal.valid = o.refRat.valid = false; o.stopped_since_change = false;
+    if (s.getInt(P::i("syncmode")) == 0) o.ever_rational = o.ever_rational;
+  } else if (kind == "setsettings") {
+    // setSettings(settings of a second object) has exactly the effect of the typed setters
+    sut::Sut other; int nset = r.range(1, 4);
+    for (int k = 0; k < nset; k++) { int p = P::i(safeI[r.below(sizeof safeI / sizeof safeI[0])]); other.setInt(p, r.range(pi.ilo[p], std::min(pi.iup[p], pi.ilo[p] + 6))); }
+    if (r.chance(0.5)) other.setInt(P::i("syncmode"), r.range(0, 2));
+    other.setInt(P::i("verbosity"), 0); other.setInt(P::i("objsense"), s.getInt(P::i("objsense"))); other.setReal(P::r("obj_offset"), s.getReal(P::r("obj_offset")));
+    bool ok = s.copySettingsFrom(other);
+    if (!ok) viol("C15", "setsettings_failed", "setSettings() with valid settings returned false");
+    for (int p = 0; p < pi.nbool; p++) o.pm.b[p] = other.getBool(p); for (int p = 0; p < pi.nint; p++) o.pm.i[p] = other.getInt(p); for (int p = 0; p < pi.nreal; p++) o.pm.r[p] = other.getReal(p);
+    if (o.pm.i[P::i("syncmode")] != 0) o.ever_rational = true;
+    o.refReal.valid = o.refRat.valid = false;
+  } else {
+    std::string name, sval; bool ok = false, expect = !bad;
+    std::vector<bool> b0; std::vector<int> i0; std::vector<double> d0; snapshot(b0, i0, d0);
+    if (ty == 0) {
+      int p = any ? (int)r.below(pi.nbool) : P::b(safeB[r.below(sizeof safeB / sizeof safeB[0])]);
+      if (pi.bname[p] == "lifting") p = P::b("ensureray");
+      bool v = r.chance(0.5); name = "bool:" + pi.bname[p];
+      if (bad && !viaString) { count("param_skipped"); return; }   // every bool value is valid through the typed setter
+      sval = bad ? r.pick({std::string("2"), std::string("yes"), std::string("maybe"), std::string("-1")}) : std::string(v ? (r.chance(0.5) ? "true" : "1") : (r.chance(0.5) ? "false" : "0"));
+      if (viaString) ok = s.parseSettings(name + "=" + sval); else ok = s.setBool(p, v);
+      if (ok && expect) o.pm.b[p] = v;
+    } else if (ty == 1) {
+      int p = any ? (int)r.below(pi.nint) : P::i(safeI[r.below(sizeof safeI / sizeof safeI[0])]);
+      if (pi.iname[p] == "verbosity" || pi.iname[p] == "solvemode" || pi.iname[p] == "checkmode" || pi.iname[p] == "readmode" || pi.iname[p] == "multiprecision_limit" || pi.iname[p] == "storeBasisSimplexFreq") p = P::i("pricer");
+      long lo = pi.ilo[p], up = pi.iup[p], v;
+      if (!bad) { v = r.pick({lo, up, (long)pi.idef[p], lo + (long)r.below((uint64_t)std::min<long>(up - lo, 8) + 1)}); if (pi.iname[p] == "objsense" && v == 0) v = 1; if (pi.iname[p] == "simplifier" && v == 2) v = 3; }
+      else { v = r.pick({(long)(lo - 1), (long)(up + 1), (long)INT_MIN, (long)INT_MAX, (long)(lo - 1000)}); if (v >= lo && v <= up) v = lo - 1; if (v < INT_MIN || v > INT_MAX) { count("param_skipped"); return; } }
+      name = "int:" + pi.iname[p]; sval = std::to_string(v);
+      if (viaString && bad && r.chance(0.3)) sval = r.pick({std::string("abc"), std::string("x1"), std::string("99999999999999999999")});
+      if (viaString) ok = s.parseSettings(name + (r.chance(0.3) ? " = " : "=") + sval); else ok = s.setInt(p, (int)v);
+      if (ok && expect) { o.pm.i[p] = (int)v; if (pi.iname[p] == "objsense") o.lp.sense = (int)v; if (pi.iname[p] == "syncmode" && v != 0) o.ever_rational = true; o.refReal.valid = o.refRat.valid = false; }
+    } else {
+      int p = any ? (int)r.below(pi.nreal) : P::r(safeR[r.below(sizeof safeR / sizeof safeR[0])]);
+      if (pi.rname[p] == "infty") p = P::r("minred");   // INFTY rescales the meaning of stored bounds: handled by its own scenario, not here
+      double lo = pi.rlo[p], up = pi.rup[p], v;
+      if (!bad) { v = r.pick({lo, up, pi.rdef[p], lo + (up - lo) * r.unit() * (up - lo > 1e50 ? 1e-90 : 1.0)}); if (!(v >= lo && v <= up)) v = pi.rdef[p]; }
+      else { v = r.pick({(double)(lo - 1.0), (double)(up * 2 + 1.0), (double)-INFINITY, (double)INFINITY, (double)NAN, (double)(lo - 1e-9 - fabs(lo) * 1e-9)}); if (v >= lo && v <= up) v = std::nextafter(lo, -INFINITY); if (v >= lo && v <= up) { count("param_skipped"); return; } }
+      char buf[64]; snprintf(buf, sizeof buf, "%.17g", v); name = "real:" + pi.rname[p]; sval = buf;
+      if (viaString && bad && r.chance(0.3)) sval = r.pick({std::string("abc"), std::string("nan"), std::string("--1"), std::string("1e999999")});
+      if (viaString) ok = s.parseSettings(name + "=" + sval); else ok = s.setReal(p, v);
+      if (ok && expect) { o.pm.r[p] = viaString ? atof(sval.c_str()) : v; if (pi.rname[p] == "obj_offset") o.lp.offset = model::q_from_double(o.pm.r[p]); }
+    }
+    std::map<std::string, std::string> ctx = {{"param", name}, {"value", sval}, {"via", viaString ? "string" : "setter"}};
+    if (expect && !ok) { viol("C15", "valid_value_rejected", name + "=" + sval + " rejected", ctx); }
+    if (!expect && ok) { viol("C15", "invalid_value_accepted", name + "=" + sval + " accepted (returned true)", ctx); for (int p = 0; p < pi.nbool; p++) o.pm.b[p] = s.getBool(p); for (int p = 0; p < pi.nint; p++) o.pm.i[p] = s.getInt(p); for (int p = 0; p < pi.nreal; p++) o.pm.r[p] = s.getReal(p); }
+    if (!expect && !ok) { std::string w = same(b0, i0, d0); if (!w.empty()) { viol("C15", "rejected_value_changed_state", name + "=" + sval + " was rejected but " + w + " changed", ctx); for (int p = 0; p < pi.nbool; p++) o.pm.b[p] = s.getBool(p); for (int p = 0; p < pi.nint; p++) o.pm.i[p] = s.getInt(p); for (int p = 0; p < pi.nreal; p++) o.pm.r[p] = s.getReal(p); } }
+  }
+  check_params(o);
+  // no parameter operation other than sense and offset changes the stored LP
+  if (s.numCols() == o.lp.ncols() || o.lp.ncols() == 0) check_accessors(o);
+}
+
+// ------------------------------------------------------------------ C11: rational basis inverse is exact
+void Executor::check_ratinverse(Obj& o) {
+  auto& s = *o.s; const LP& lp = o.lp;
+  if (s.getInt(P::i("syncmode")) == 0 || !s.hasBasis()) return;
+  int m = lp.nrows(), n = lp.ncols();
+  if (m == 0 || s.numRowsRational() != m || s.numColsRational() != n) return;
+  auto ctx = ctx_of(o);
+  std::vector<int> rows, cols; s.getBasis(rows, cols);
+  int nb = 0; for (int v : rows) nb += v == sut::VS_BASIC; for (int v : cols) nb += v == sut::VS_BASIC;
+  if (nb != m) return;
+  bool ok = s.computeBasisInverseRational();
+  std::vector<int> bind; bool okb = s.getBasisIndRational(bind);
+  count("ratinverse_checked");
+  // expected basis matrix from the statuses (order taken from SoPlex's own index array once it is available)
+  if (!ok || !okb) {
+    // must be singular then (or a limit fired)
+    std::vector<int> b2; for (int j = 0; j < n; j++) if (cols[j] == sut::VS_BASIC) b2.push_back(j); for (int i = 0; i < m; i++) if (rows[i] == sut::VS_BASIC) b2.push_back(-1 - i);
+    std::vector<std::vector<Q>> B, inv;
+    double inf = s.getReal(P::r("infty"));
+    bool timeArmed = s.getReal(P::r("timelimit")) < inf;
+    if (model::basis_matrix(lp, b2, B) && model::exact_inverse(B, inv) && !timeArmed) viol("C11", "regular_basis_reported_singular", "computeBasisInverseRational/getBasisIndRational failed on a basis whose exact matrix is nonsingular", ctx);
+    return;
+  }
+  if ((int)bind.size() != m) { viol("C11", "basisind_size", "getBasisIndRational returned " + std::to_string(bind.size()) + " entries for " + std::to_string(m) + " rows", ctx); return; }
+  std::vector<char> sr(m, 0), sc(n, 0);
+  for (int k = 0; k < m; k++) { int b = bind[k]; if (b >= 0) { if (b >= n || cols[b] != sut::VS_BASIC || sc[b]) { viol("C11", "basisind_mismatch", "getBasisIndRational names a non-basic or repeated column", ctx); return; } sc[b] = 1; } else { int i = -1 - b; if (i >= m || rows[i] != sut::VS_BASIC || sr[i]) { viol("C11", "basisind_mismatch", "getBasisIndRational names a non-basic or repeated row", ctx); return; } sr[i] = 1; } }
+  std::vector<std::vector<Q>> B, inv;
+  if (!model::basis_matrix(lp, bind, B)) return;
+  if (!model::exact_inverse(B, inv)) { viol("C11", "singular_basis_factorized", "the rational factorization reported success on an exactly singular basis matrix", ctx); return; }
+  for (int t = 0; t < 2; t++) {
+    int k = (int)orng_.below(m);
+    std::vector<Q> d; std::vector<int> idx;
+    if (!s.basisInverseRowQ(k, d, idx)) { viol("C11", "inverse_row_failed", "getBasisInverseRowRational returned false", ctx); return; }
+    for (int i = 0; i < m; i++) if (d[i] != inv[k][i]) { viol("C11", "inverse_row_inexact", "row " + std::to_string(k) + " entry " + std::to_string(i) + ": " + d[i].get_str() + " vs exact " + inv[k][i].get_str(), ctx); return; }
+    if (!(idx.size() == 1 && idx[0] == -2)) { std::vector<char> in(m, 0); for (int i : idx) if (i >= 0 && i < m) in[i] = 1; for (int i = 0; i < m; i++) if ((d[i] != 0) != (in[i] != 0)) { viol("C11", "inverse_row_indices", "index list differs from the nonzero positions", ctx); return; } }
+    if (!s.basisInverseColQ(k, d, idx)) { viol("C11", "inverse_col_failed", "getBasisInverseColRational returned false", ctx); return; }
+    for (int i = 0; i < m; i++) if (d[i] != inv[i][k]) { viol("C11", "inverse_col_inexact", "column " + std::to_string(k) + " entry " + std::to_string(i) + ": " + d[i].get_str() + " vs exact " + inv[i][k].get_str(), ctx); return; }
+    if (!(idx.size() == 1 && idx[0] == -2)) { std::vector<char> in(m, 0); for (int i : idx) if (i >= 0 && i < m) in[i] = 1; for (int i = 0; i < m; i++) if ((d[i] != 0) != (in[i] != 0)) { viol("C11", "inverse_col_indices", "index list differs from the nonzero positions", ctx); return; } }
+    sut::SVecQ rhs; std::vector<Q> v(m, Q(0));
+    for (int i = 0; i < m; i++) if (orng_.chance(0.6)) { v[i] = Q((long)orng_.range(-7, 7), (long)orng_.pick({1, 1, 3, 7})); v[i].canonicalize(); if (v[i] != 0) { rhs.idx.push_back(i); rhs.val.push_back(v[i]); } }
+    if (!s.basisInverseTimesVecQ(rhs, d, idx)) { viol("C11", "inverse_solve_failed", "getBasisInverseTimesVecRational returned false", ctx); return; }
+    for (int i = 0; i < m; i++) { Q e = 0; for (int j = 0; j < m; j++) e += inv[i][j] * v[j]; if (d[i] != e) { viol("C11", "inverse_solve_inexact", "B^-1 v entry " + std::to_string(i) + ": " + d[i].get_str() + " vs exact " + e.get_str(), ctx); return; } }
+  }
 }
 }  // namespace sim
